@@ -183,6 +183,9 @@ def l_poll_loop(F, X, rep):
     for p in polls:
         ok = p.bb in b.reach([sl[1]]) and p.bb not in b.reach([0], removed_nodes=[sl[1]])
         rep.ob(rid, ok, fn, "poll happens exactly after the timer arm", where=p.loc, how="dominated by the sleep arm", detail="" if ok else "the poll is not tied to the timer arm")
+        skip = sel.switch_bb in b.reach([sl[1]], removed_nodes=[p.bb])
+        rep.ob(rid, not skip, fn, "every timer expiry polls the node", where=p.loc, how="select unreachable from the timer arm without the poll",
+               detail="" if not skip else "an iteration of the poll loop can skip the getinfo poll: lost notifications are not repaired within one interval")
         ar = ml.arms_of_result(b, X, p)
         if ar:
             for name, tg in ar[1].items():
